@@ -25,7 +25,7 @@ import ast
 import copy
 import itertools
 
-from .loader import FuncInfo
+from .loader import FuncInfo, clone
 
 MAX_DEPTH = 4
 
@@ -111,7 +111,7 @@ class _Subst(ast.NodeTransformer):
 
     def visit_Name(self, node):
         if node.id in self.exprs and isinstance(node.ctx, ast.Load):
-            return ast.copy_location(copy.deepcopy(self.exprs[node.id]), node)
+            return ast.copy_location(clone(self.exprs[node.id]), node)
         if node.id in self.renames:
             return ast.copy_location(ast.Name(id=self.renames[node.id], ctx=node.ctx), node)
         return node
@@ -242,7 +242,7 @@ class Flattener(object):
             else:
                 new = self.fresh(p, k)
                 renames[p] = new
-                asg = ast.Assign(targets=[ast.Name(id=new, ctx=ast.Store())], value=copy.deepcopy(a))
+                asg = ast.Assign(targets=[ast.Name(id=new, ctx=ast.Store())], value=clone(a))
                 pre.append(ast.copy_location(asg, call))
         for name in sorted(stored):
             if name in actual:
@@ -274,8 +274,8 @@ class Flattener(object):
                 out.append(s)
                 continue
             if isinstance(s, ast.If):
-                body, bt = self.convert(list(s.body) + copy.deepcopy(rest) if rest else list(s.body), res, at_tail)
-                orelse, ot = self.convert(list(s.orelse) + copy.deepcopy(rest) if rest else list(s.orelse),
+                body, bt = self.convert(list(s.body) + clone(rest) if rest else list(s.body), res, at_tail)
+                orelse, ot = self.convert(list(s.orelse) + clone(rest) if rest else list(s.orelse),
                                           res, at_tail)
                 new = ast.If(test=s.test, body=body or [ast.copy_location(ast.Pass(), s)], orelse=orelse)
                 out.append(ast.copy_location(new, s))
@@ -284,7 +284,7 @@ class Flattener(object):
                 if s.orelse or _contains(s.body, ast.Break):
                     raise _NoInline()
                 body = self.loop_body(s.body, res)
-                tail, tt = self.convert(copy.deepcopy(rest), res, at_tail)
+                tail, tt = self.convert(clone(rest), res, at_tail)
                 if not tt and res is not None and at_tail:
                     tail = tail + self.assign_result(res, None, s)
                     tt = True
@@ -367,7 +367,7 @@ class Flattener(object):
             return None
         if pre:
             return None
-        new = _Subst(exprs, renames).visit(copy.deepcopy(expr))
+        new = _Subst(exprs, renames).visit(clone(expr))
         self.inlined.append(callee.key)
         return self.rewrite_expr(new, callee.cls, stack + [callee.key])
 
@@ -462,10 +462,10 @@ class Flattener(object):
                 first = t.values[0]
                 rest = t.values[1] if len(t.values) == 2 else ast.copy_location(ast.BoolOp(op=t.op, values=t.values[1:]), t)
                 if isinstance(t.op, ast.And):
-                    inner_if = ast.copy_location(ast.If(test=rest, body=stmt.body, orelse=copy.deepcopy(stmt.orelse)), stmt)
+                    inner_if = ast.copy_location(ast.If(test=rest, body=stmt.body, orelse=clone(stmt.orelse)), stmt)
                     stmt = ast.copy_location(ast.If(test=first, body=[inner_if], orelse=stmt.orelse), stmt)
                 else:
-                    inner_if = ast.copy_location(ast.If(test=rest, body=copy.deepcopy(stmt.body), orelse=stmt.orelse), stmt)
+                    inner_if = ast.copy_location(ast.If(test=rest, body=clone(stmt.body), orelse=stmt.orelse), stmt)
                     stmt = ast.copy_location(ast.If(test=first, body=stmt.body, orelse=[inner_if]), stmt)
         # 2. statement-level helpers in hoistable positions
         for call in self.hoistable_calls(stmt):
@@ -479,7 +479,7 @@ class Flattener(object):
             # the analysis only needs the shape, the helper body is placed directly before the statement
             try:
                 pre, exprs, renames, k = self.bind(callee, call, receiver)
-                body = [_Subst(exprs, renames).visit(copy.deepcopy(s)) for s in _body_without_doc(callee.node)]
+                body = [_Subst(exprs, renames).visit(clone(s)) for s in _body_without_doc(callee.node)]
                 whole_value = isinstance(stmt, (ast.Assign, ast.Return, ast.Expr)) and stmt.value is call
                 if isinstance(stmt, ast.Return) and whole_value:
                     new_body, tail = body, []
@@ -576,7 +576,7 @@ class Flattener(object):
         return out
 
     def run(self):
-        node = copy.deepcopy(self.fi.node)
+        node = clone(self.fi.node)
         node.body = self.rewrite_block(node.body, self.fi.cls, [self.fi.key])
         ast.fix_missing_locations(node)
         for n in ast.walk(node):
